@@ -56,7 +56,8 @@ LEVEL_NOTE = ('Trusted: Coq kernel, gen_tables.py/t14.py, extraction + OCaml dri
               '(the sender is one unregistered user with default capabilities); channel traffic and per-channel settings (brackets, pipeSyntax, '
               'reply.*), one network, private queries only; prefixNick; debug.threadAllCommands / CommandProcess; reply.maximumLength truncation and '
               'non-string replies; registry children are matched case-insensitively (finding C14.F27).  Not proved, only checked differentially: '
-              'the success flags of Owner.disable/enable, the values of the sticky reply attributes.  (That a restart preserves the disabled answers after '
+              'the success flags of Owner.disable/enable (including that Owner\'s own `disable`/`enable` stop working once the table disables them, e.g. after '
+              '`config supybot.commands.disabled enable`: mirrored in the executable model of histories, outside the theorems), the values of the sticky reply attributes.  (That a restart preserves the disabled answers after '
               'any history of disable/enable, run-time settings of supybot.commands.disabled and restarts IS proved, for names without special characters '
               "or '.': C14_restart_preserves.)")
 TECHNIQUE = 'Coq proof (refinement of a frame-stack machine to a recursive evaluator, strong induction on the number of sub-commands) + regenerated tables + extracted-model differential correspondence on a live bot'
